@@ -198,13 +198,22 @@ ENUM_GROUPS = {
 }
 
 
-# group `cls` (whole class files): definition lives next to its harness
-def _load_cls():
-    import importlib.util, os
-    spec = importlib.util.spec_from_file_location('verif_cls_group', os.path.join(os.path.dirname(os.path.abspath(__file__)), 'enum', 'cls_group.py'))
-    m = importlib.util.module_from_spec(spec)
-    spec.loader.exec_module(m)
-    return m.GROUP
+# groups whose definition lives next to the harness: kx/enum/<name>_group.py defines GROUP (same shape as the entries above)
+BROKEN_GROUPS = {}
 
 
-ENUM_GROUPS['cls'] = _load_cls()
+def _load_group_files():
+    import glob, importlib.util, os
+    d = os.path.join(os.path.dirname(os.path.abspath(__file__)), 'enum')
+    for f in sorted(glob.glob(os.path.join(d, '*_group.py'))):
+        name = os.path.basename(f)[:-len('_group.py')]
+        try:
+            spec = importlib.util.spec_from_file_location('verif_group_' + name, f)
+            m = importlib.util.module_from_spec(spec)
+            spec.loader.exec_module(m)
+            ENUM_GROUPS[name] = m.GROUP
+        except Exception as e:   # a broken group file must not take the other groups down; a property that needs it reports UNDECIDED
+            BROKEN_GROUPS[name] = repr(e)
+
+
+_load_group_files()
